@@ -2,7 +2,7 @@
 # dev helper: assemble overlay dir for a package: $1 = pkg rel path (store/nbs), $2 = tier
 set -e
 pkg=$1; tier=${2:-quick}
-name=$(grep -m1 '^package ' /repo/go/$pkg/*.go | head -1 | awk '{print $2}')
+name=$(grep -m1 -h "^package " /repo/go/$pkg/*.go | head -1 | awk "{print \$2}")
 out=/verif/out/overlay/$(echo $pkg | tr / _)_$tier
 rm -rf $out; mkdir -p $out
 for f in /verif/harness/$pkg/*.go; do
@@ -11,4 +11,5 @@ for f in /verif/harness/$pkg/*.go; do
   cp $f $out/
 done
 sed "s/PKGNAME/$name/" /verif/harness/rt/rt.go.tmpl > $out/rt.go
+sed "s/PKGNAME/$name/" /verif/harness/rt/rtfs.go.tmpl > $out/rtfs.go
 echo $out
